@@ -97,20 +97,28 @@ func (w *Worker) hardCheck(pc []*Term, more []*Term, syms []*Term, extra string)
 	t0 := time.Now()
 	r, m := w.solver.CheckModel(pc, more, syms, extra)
 	if r == Unknown && !w.cfg.NoFallback {
-		script := Script(append(append([]*Term{}, pc...), more...), syms, extra)
-		to := time.Duration(w.cfg.HardTimeoutS) * time.Second
-		for _, kind := range []string{"z3", "cvc5", "z3-new"} {
-			rr, mm, _ := OneShot(kind, script, to, syms)
-			w.run.mu.Lock()
-			w.run.Fallbacks++
-			w.run.mu.Unlock()
-			if rr != Unknown {
-				r, m = rr, mm
-				break
-			}
-		}
+		r, m, _ = w.fallback(pc, more, syms, extra, w.cfg.HardTimeoutS)
 	}
 	return r, m, time.Since(t0).Milliseconds()
+}
+
+// fallback decides a query with fresh one-shot solver processes
+// (tactic-based bit-blasting; much stronger than the incremental core).
+func (w *Worker) fallback(pc []*Term, more []*Term, syms []*Term, extra string, timeoutS int) (Result, map[string]uint64, string) {
+	script := Script(append(append([]*Term{}, pc...), more...), syms, extra)
+	to := time.Duration(timeoutS) * time.Second
+	t0 := time.Now()
+	defer func() { w.sstats.Time += time.Since(t0) }()
+	for _, kind := range []string{"z3", "cvc5", "z3-new"} {
+		rr, mm, _ := OneShot(kind, script, to, syms)
+		w.run.mu.Lock()
+		w.run.Fallbacks++
+		w.run.mu.Unlock()
+		if rr != Unknown {
+			return rr, mm, kind
+		}
+	}
+	return Unknown, nil, ""
 }
 
 // checkObligation is the common path of property assertions and panic
@@ -122,6 +130,9 @@ func (ex *Exec) checkObligation(cond *Term, kind, msg string, pos token.Pos) {
 	ps := ex.posStr(pos)
 	ob := Obligation{Kind: kind, Msg: msg, Pos: ps, Path: append([]Decision{}, ex.decs...)}
 	neg := ex.tb.Not(cond)
+	if os.Getenv("GOSYM_DEBUG_ASSERT") != "" && !cond.IsConst() {
+		fmt.Fprintf(os.Stderr, "DEBUG-ASSERT %s: size=%d %s\n", msg, cond.size, cond.String())
+	}
 	if neg.IsConst() && neg.c == 0 {
 		ob.Result, ob.Known = "holds", "trivial"
 		if kind == "assert" {
@@ -146,6 +157,10 @@ func (ex *Exec) checkObligation(cond *Term, kind, msg string, pos token.Pos) {
 		ob.Model = ex.fullModel(m)
 	case Unknown:
 		ob.Result = "unknown"
+		ob.Choices = map[string]int64{}
+		for k, v := range ex.choices {
+			ob.Choices[k] = v
+		}
 	case Unsat:
 		ob.Result = "holds"
 		// were known findings needed to get unsat?
